@@ -256,6 +256,17 @@ def fasta_molecules(pt, rng, quick):
 GRID = [(1.0, 0.0), (1.0, 1.0), (0.0, 0.4), (0.5, 0.5), (0.25, 0.9), (1.0, 0.42)]
 
 
+def own_grid(nsf, m):
+    """the molecule's own match fraction (may be < 0 or > 1) at three volume fractions"""
+    try:
+        d = float(nsf.D2O_match(m.labile_formula)[0])
+    except Exception:  # noqa
+        return []
+    if d != d or abs(d) > 1e6:
+        return []
+    return [(0.0, d), (0.3, d), (1.0, d)]
+
+
 def stage_fasta(run, pt, tl, quick):
     from periodictable import nsf, fasta
     mols = fasta_molecules(pt, run.rng, quick)
@@ -264,7 +275,7 @@ def stage_fasta(run, pt, tl, quick):
         ct = compound_tokens(m.labile_formula)
         lines.append("mol %s" % ct)
         lines.append("moldens %s %s" % (f2h(m.labile_formula.mass), f2h(m.cell_volume)))
-        for vf, d in GRID:
+        for vf, d in GRID + own_grid(nsf, m):
             lines.append("mold2o %s %s %s" % (f2h(vf), f2h(d), ct))
     rep = iter(run_driver("neutron", lines))
     for name, m in mols:
@@ -283,7 +294,8 @@ def stage_fasta(run, pt, tl, quick):
                           inp, site="fasta-sld")
         real_grid = []
         flagged = False
-        for vf, d in GRID:
+        grid = GRID + own_grid(nsf, m)
+        for vf, d in grid:
             a = float(m.D2Osld(volume_fraction=vf, D2O_fraction=d))
             b = float(nsf.D2O_sld(f, volume_fraction=vf, D2O_fraction=d)[0])
             real_grid.append(a)
@@ -299,7 +311,13 @@ def stage_fasta(run, pt, tl, quick):
         md = h2f(next(rep))
         if not close(md, f.density):
             run.disagree("fasta.Molecule.density", inp, md, f.density)
-        for (vf, d), a in zip(GRID, real_grid):
+        # at its own match fraction (which may lie outside [0, 1]) the solution SLD is the same for
+        # every volume fraction
+        own = real_grid[len(GRID):]
+        if own and not all(tol_close(v, own[0], scale) for v in own):
+            run.violation("fasta molecule %s: at its match fraction %r the SLD depends on the volume fraction: %r"
+                          % (name, grid[-1][1], own), inp, site="fasta-match-point")
+        for (vf, d), a in zip(grid, real_grid):
             x = nc.parse_outcome(next(rep))
             if isinstance(x, str) or not tol_close(x[0], a, scale):
                 run.disagree("fasta.Molecule.D2Osld", dict(molecule=name, vf=vf, d=d), x, a)
